@@ -204,6 +204,32 @@ def gen_cases(rng, tier):
                 cases.append({'dm': rng.choice(W.MODES), 'pre': False, 'script': script,
                               'hist': [o], 'late': late, 'q': {'k': 'op', 'o': o}})
                 n_late += 1
+    # a result type WITHOUT reference unit: the product / quotient of two units is undefined
+    # until a UNIT for it is declared (derive_unit_from); tried before, it must succeed after
+    # ("raises precisely when no declared unit corresponds"; seeded C02-j: failed look-ups
+    # remembered and forgotten only when a TYPE is declared).  Drawn last, so that the
+    # families above keep their random streams.
+    for i in range(10 if tier == 'quick' else 120):
+        tag = ''.join(rng.choice('abcdefghk') for _ in range(3)) + 'j'
+        e1 = rng.choice([1, -1])
+        script = [
+            {'d': 'cls', 'name': f"A{tag}", 'def': None, 'ref': None, 'quantum': None},
+            {'d': 'unit', 'cls': f"A{tag}", 'sym': f"{tag}a1", 'def': None},
+            {'d': 'unit', 'cls': f"A{tag}", 'sym': f"{tag}a2", 'def': None},
+            {'d': 'cls', 'name': f"B{tag}", 'def': None, 'ref': f"{tag}b", 'quantum': None},
+            {'d': 'unit', 'cls': f"B{tag}", 'sym': f"{tag}kb", 'def': ['qty', ['int', '1000/1'], f"{tag}b"]},
+            {'d': 'cls', 'name': f"V{tag}", 'def': [[f"A{tag}", 1], [f"B{tag}", e1]], 'ref': None,
+             'quantum': None},
+            {'d': 'derive', 'cls': f"V{tag}", 'units': [f"{tag}a2", f"{tag}b"], 'sym': None},
+        ]
+        ua, ub = f"{tag}a1", rng.choice([f"{tag}b", f"{tag}kb"])
+        o = ['mul' if e1 > 0 else 'div', _opd(rng, ua, rng.choice('qu')),
+             _opd(rng, ub, rng.choice('qu'))]
+        if o[2][0] == 'q' and o[0] == 'div':
+            o[2][1] = ['dec', '5/2']                       # no zero divisor
+        late = [{'d': 'derive', 'cls': f"V{tag}", 'units': [ua, f"{tag}b"], 'sym': None}]
+        cases.append({'dm': rng.choice(W.MODES), 'pre': False, 'script': script,
+                      'hist': [o] * rng.choice([1, 2]), 'late': late, 'q': {'k': 'op', 'o': o}})
     return cases
 
 
